@@ -28,17 +28,17 @@ type Outcome struct {
 
 type runStats struct {
 	mu           sync.Mutex
-	Property     string         `json:"property"`
-	Test         string         `json:"test"`
-	Evaluations  int            `json:"evaluations"`
-	Inconclusive int            `json:"inconclusive"`
-	Labels       map[string]int `json:"labels"`
-	Excluded     map[string]int `json:"excluded"`
-	KnownHits    map[string]int `json:"known_hits"`
-	NonTrivial   map[string]int `json:"nontrivial_hashes"`
-	Samples      []json.RawMessage `json:"samples"`
-	Violations   int            `json:"violations"`
-	Failure      string         `json:"failure,omitempty"`
+	Property     string                 `json:"property"`
+	Test         string                 `json:"test"`
+	Evaluations  int                    `json:"evaluations"`
+	Inconclusive int                    `json:"inconclusive"`
+	Labels       map[string]int         `json:"labels"`
+	Excluded     map[string]int         `json:"excluded"`
+	KnownHits    map[string]int         `json:"known_hits"`
+	NonTrivial   map[string]int         `json:"nontrivial_hashes"`
+	Samples      []json.RawMessage      `json:"samples"`
+	Violations   int                    `json:"violations"`
+	Failure      string                 `json:"failure,omitempty"`
 	Extra        map[string]interface{} `json:"extra,omitempty"`
 }
 
